@@ -272,12 +272,15 @@ async def run_pump(loop: S.VLoop, c):
         return obs
     stream = f2
     for a in c["app"]:
-        ab = bytes.fromhex(a)
-        so.write(ab)
-        rb = outb.read()
-        for x in records(rb):
-            recs.append((x, "a:" + ab.hex()))
-        stream += rb
+        whole = bytes.fromhex(a)
+        for off in range(0, len(whole), 16384):   # one TLS record per write: the tag is exactly that record's plaintext
+            ab = whole[off:off + 16384]
+            so.write(ab)
+            rb = outb.read()
+            rr = records(rb)
+            assert len(rr) == 1, "one write, one record"
+            recs.append((rr[0], "a:" + ab.hex()))
+            stream += rb
     if c.get("close_notify"):
         try:
             so.unwrap()
